@@ -1840,6 +1840,18 @@ def _rule_arguments(ctx: Ctx, r: LockRoles) -> None:
             tg = n.targets[0] if isinstance(n, ast.Assign) else n.target
             if isinstance(tg, ast.Attribute) and isinstance(n.value, ast.Name) and n.value.id == 'timeout':
                 default_attr = tg.attr
+    # the default is stored as it was given: `self.timeout = timeout or -1` turns the valid default 0 ("try once") into -1 ("wait
+    # for ever") before acquire() ever sees it
+    for n in own_nodes(r.init.node):
+        if isinstance(n, (ast.Assign, ast.AnnAssign)) and getattr(n, 'value', None) is not None:
+            tg = n.targets[0] if isinstance(n, ast.Assign) else n.target
+            if isinstance(tg, ast.Attribute) and isinstance(tg.value, ast.Name) and tg.value.id == 'self' \
+                    and any(isinstance(x, ast.Name) and x.id == 'timeout' for x in ast.walk(n.value)):
+                ctx.check('C12-R6', f'{r.init.qualname}: self.{tg.attr} = {norm(n.value)}', f'{FILE}:{n.lineno}',
+                          isinstance(n.value, ast.Name), 'the default timeout is kept as given',
+                          'the default timeout is transformed on its way into the attribute acquire() reads (a truthiness test loses 0, a clamp '
+                          'loses -1): acquire() without arguments, the with-statement and acquire_ctx() wait differently from what was configured',
+                          construct=construct_key(r.init.qualname, 'default timeout transformed'))
     tl_calls = [n for n in g.nodes if n.kind == 'call' and isinstance(n.ast.func, ast.Attribute)
                 and n.ast.func.attr == 'acquire' and _self_attr(n.ast.func.value, r.tl)]
     os_calls = [n for n in g.nodes if n.kind == 'call' and callee_info(g, n.ast)['kind'] == 'package'
